@@ -165,11 +165,13 @@ func (m *UnboundedFairMailbox) Enqueue(msg *ReceiveContext) error {
 	_ = sq.mailbox.Enqueue(msg)
 	atomic.AddInt64(&m.length, 1)
 
-	if pending := atomic.AddInt64(&sq.pending, 1); pending == 1 {
-		// transition from empty -> non-empty, try to activate sender
-		if sq.active.CompareAndSwap(false, true) {
-			m.active.enqueue(sq)
-		}
+	// Activate the sender whenever it is not on the active list, not only on
+	// the empty -> non-empty transition of pending: the consumer deactivates a
+	// sender whose sub-queue momentarily looks empty while this enqueue is in
+	// flight, and by then pending is already above one.
+	atomic.AddInt64(&sq.pending, 1)
+	if sq.active.CompareAndSwap(false, true) {
+		m.active.enqueue(sq)
 	}
 	return nil
 }
@@ -191,8 +193,19 @@ func (m *UnboundedFairMailbox) Dequeue() (msg *ReceiveContext) {
 
 	msg = sq.mailbox.Dequeue()
 	if msg == nil {
-		// per‑sender queue was drained concurrently; mark inactive
+		// The per-sender queue looks empty: either it was drained, or an
+		// enqueue is still in flight ahead of completed ones (the sub-queue
+		// publishes a node only once its predecessor has linked it). Mark the
+		// sender inactive, then look again: a producer that linked its node
+		// before this point found the sender still active and did not
+		// re-activate it, so without the second look the sender would never be
+		// served again and the mailbox would report non-empty while Dequeue
+		// returns nil forever. A producer that links later re-activates the
+		// sender itself (see Enqueue).
 		sq.active.Store(false)
+		if !sq.mailbox.IsEmpty() && sq.active.CompareAndSwap(false, true) {
+			m.active.enqueue(sq)
+		}
 		return
 	}
 
